@@ -95,8 +95,13 @@ def run(ctx):
     elif info is None:
         search_overflow(ctx, None, exe)
     ctx.trusted_base += [
-        "Coq 8.16.1 kernel; vm_compute for the bounded emit/parse theorem and the examples; no native_compute",
+        "Coq 8.16.1 kernel; vm_compute only for the Examples (toy instance, bounded sweep); no native_compute",
         "axioms: none (Print Assumptions: Closed under the global context for every theorem of Properties_C07.v)",
+        "number-text layer = Section hypotheses of Properties_C07.v (what C99 printf/sscanf/strtod and vnacal_name_to_type guarantee, not proved): "
+        "int_rt, cx_accepted, name_text, type_rt, real_rt, cx_rt, num_rt (strtod(printf) is the identity at VNACAL_MAX_PRECISION (%a) and at >= 17 digits); "
+        "discharged for a toy number type in CalFile/CalSaveExamples.v; exercised on every number of every scenario",
+        "hand-written models CalFile/CalSaveModel.v (vnacal_save.c) and CalFile/CalFileModel.v (vnacal_load.c), tied to the library by execution "
+        "(checks/c07_savetie.py, checks/c09_model.py); extraction and ocaml/drv_calfile.ml",
         "translator translate/savebuf.py (C text -> coq/Gen/SaveBufGen.v), validated against the compiled code (sizeof, VNACAL_MAX_PRECISION, defaults, setter probes)",
         "CalFile/NumText.v: shapes of C99 %e/%a/%d output (glibc's conformance is exercised by the length tie, not proved)",
     ]
